@@ -657,6 +657,91 @@ def tie_lit(case):
 
 
 # ---------------------------------------------------------------------------------------------
+# FastFourierTransform on a grid with per-point weights: fastForwardNW (Model/FftWeights.lean)  <->  forward with relative_weights
+
+def gen_fftw(rng):
+    case = gen_lit(rng)
+    case['family'] = 'tie-fftw'
+    size = int(np.prod(case['N']))
+    kind = str(rng.choice(['random', 'random', 'one-zero', 'edge-heavy']))
+    rel = [dy_nz(rng, 0.125, 2.0, 3) for _ in range(size)]
+    if kind == 'one-zero':
+        rel[int(rng.integers(0, size))] = 0.0
+    elif kind == 'edge-heavy':
+        rel[0] = 8.0
+        rel[-1] = 8.0
+    case['rel'] = rel          # relative weights in the grid's flat order (x fastest)
+    case['wkind'] = kind
+    return case
+
+
+def tie_fftw(case):
+    import hcipy
+    from harness.props import c01
+    t = Tie()
+    ndim = len(case['N'])
+    cell = 1.0
+    for dl in case['delta']:
+        cell *= abs(dl)
+    rel = np.array(case['rel'], dtype='float64')
+    g = _reg_grid(case['delta'], case['N'], case['zero'], rel * cell)
+    rng = np.random.default_rng(case['seed'])
+    fts = {}
+    for cfg in ('std', 'emu'):
+        fts[cfg] = hcipy.FastFourierTransform(g, np.array(case['q']), np.array(case['fov']), np.array(case['shift']), emulate_fftshifts=(cfg == 'emu'))
+    ft = fts['std']
+    Ns = [int(v) for v in ft.shape_in[::-1]]
+    Ms = [int(v) for v in ft.internal_shape[::-1]]
+    Mos = [int(v) for v in ft.shape_out[::-1]]
+    dTs = c01.reported_dT(ft, case['delta'])
+    if dTs is None:
+        t.bad.append(('fft-grid-inconsistent', 'reported output spacing is not 2π/(M·δ) for any integer M'))
+        return t
+    og = ft.output_grid
+    xi = [np.asarray(c, dtype=LD) for c in g.coords]
+    xo = [np.asarray(c, dtype=LD) for c in og.coords]
+    wi = np.asarray(g.weights, dtype=LD) * np.ones(g.size, dtype=LD)
+    # oracle: a dyadic random field and a unit impulse against the defining sum with the grid's own per-point weights
+    fld = (rng.integers(-8, 9, size=g.size) + 1j * rng.integers(-8, 9, size=g.size)) / 8.0
+    j = int(rng.integers(0, g.size))
+    imp = np.zeros(g.size, dtype='complex128'); imp[j] = 1
+    phase = np.exp(-CLD(1j) * sum(np.multiply.outer(xo[d], xi[d]) for d in range(ndim)))        # (out, in)
+    res = {}
+    for cfg in ('std', 'emu'):
+        for name, a in (('field', fld), ('impulse', imp)):
+            got = np.asarray(fts[cfg].forward(hcipy.Field(a.astype('complex128'), g)))
+            ref = phase @ (np.asarray(a, dtype=CLD) * wi)
+            e = maxerr(got, ref)
+            if not e <= 1e-9 * max(float(np.abs(ref).max()), float(np.abs(wi).max()) * 1e-3, 1e-300):
+                t.bad.append(('fft-per-point-weights', 'FastFourierTransform(%s).forward of a %s on a %d-D grid with per-point weights differs from Σ f·w·exp(-iux) by %.3g' % (
+                    'emulate_fftshifts' if cfg == 'emu' else 'fftshifts', name, ndim, e)))
+            if name == 'impulse':
+                res[cfg] = got
+    rv = lambda l: l[::-1]
+    ws = [Fraction(1)] * ndim
+    for dl in case['delta']:
+        ws[0] *= abs(Fraction(dl))
+    cfgargs = '%s %s %s %s %s %s %s %s' % (nat_list(rv(Ns)), nat_list(rv(Ms)), nat_list(rv(Mos)), rat_list(rv(case['delta'])), rat_list(rv(case['zero'])),
+                                        rat_list(rv(dTs)), rat_list(rv(case['shift'])), rat_list(rv(ws)))
+    jj = unravel(j, rv(Ns))
+    for cfg in ('std', 'emu'):
+        t.lines.append('C01 impnw %s %s %s %s' % (cfg, cfgargs, rat_list(case['rel']), nat_list(jj)))
+
+    def check(rs):
+        for cfg, r in zip(('std', 'emu'), rs):
+            if not r.startswith('ok '):
+                return 'model impnw %s: %s' % (cfg, r)
+            m = eval_psums(r)
+            e = maxerr(m, res[cfg])
+            if not e <= 1e-9 * max(float(np.abs(m).max()), float(np.abs(wi).max()) * 1e-3, 1e-300):
+                return 'FastFourierTransform.forward (%s) on a %d-D grid with per-point weights differs from the model fastForwardNW by %.3g' % (cfg, ndim, e)
+        return None
+    t.check = check
+    t.counts = ['tie-fftw:%dD' % ndim, 'tie-fftw:' + case['wkind']] + ['tie-fftw-axis:' + ('padded' if Ms[d] > Ns[d] else 'unpadded') for d in range(ndim)]
+    t.sig = ('tie-fftw', tuple(Ns), tuple(Ms), tuple(Mos), case['wkind'])
+    return t
+
+# ---------------------------------------------------------------------------------------------
 # get_fft_parameters ∘ FastFourierTransform: getFftParameters + plan (AxisReproduced, FftValuePre)  <->  the grid the re-built FFT reports
 
 def gen_roundtrip(rng):
@@ -868,7 +953,7 @@ def tie_select(case):
 
 GEN = {'tie-mft': (gen_mft, tie_mft), 'tie-czt': (gen_czt, tie_czt), 'tie-zoom': (gen_zoom, tie_zoom), 'tie-zoomaxes': (gen_zoomaxes, tie_zoomaxes),
        'tie-state': (gen_state, tie_state), 'tie-lit': (gen_lit, tie_lit), 'tie-select': (gen_select, tie_select),
-       'tie-roundtrip': (gen_roundtrip, tie_roundtrip)}
+       'tie-roundtrip': (gen_roundtrip, tie_roundtrip), 'tie-fftw': (gen_fftw, tie_fftw)}
 
 DIRECTED = [
     {'family': 'tie-zoomaxes', 'r': 1, 'ndim': 2, 'dir': 'fwd', 'seed': 1},        # D5: tensor field on a 2-D grid
